@@ -16,7 +16,7 @@ from .common import VERIF_DIR, REPO, seed_from_env, sub_rng, jdump, jload, diges
 from . import shrink as shrinker
 
 WORKERS = int(os.environ.get("VERIF_WORKERS", "16"))
-RUN_ALARM_S = 180
+RUN_ALARM_S = 300
 
 
 class RunTimeout(BaseException):
